@@ -1046,7 +1046,11 @@ class RTCSctpTransport(AsyncIOEventEmitter):
             for param in chunk.params:
                 cls = RECONFIG_PARAM_TYPES.get(param[0])
                 if cls is not None:
-                    await self._receive_reconfig_param(cls.parse(param[1]))
+                    try:
+                        reconfig_param = cls.parse(param[1])
+                    except ValueError:
+                        continue
+                    await self._receive_reconfig_param(reconfig_param)
 
         # server
         elif isinstance(chunk, InitChunk) and self.is_server:
